@@ -169,6 +169,15 @@ pub fn constructs(thorough: bool) -> Vec<Construct> {
     v.push(stmt_c("if-empty-blocks", 1, |o| format!("r := if {} {{ }} else {{ }}; return r;", o[0])));
     v.push(stmt_c("block0", 1, |o| format!("{}; r := {{ }}; return r;", o[0])));
     v.push(stmt_c("fn-empty-body", 1, |o| format!("g := () -> () {{ }}; return (g(), {});", o[0])));
+    // a block / branch whose only statement re-declares an operand (by every declaration form):
+    // afterwards the operand is meant again
+    v.push(stmt_c("lone-declaration-in-block", 2, |o| format!("{{ {} := {} }}; return {};", o[0], o[1], o[0])));
+    v.push(stmt_c("lone-declaration-in-branch", 2, |o| format!("if true {{ {} := {} }}; return {};", o[0], o[1], o[0])));
+    v.push(stmt_c("lone-declaration-in-else", 2, |o| format!("if false {{ 1 }} else {{ {} := {} }}; return {};", o[0], o[1], o[0])));
+    v.push(stmt_c("lone-destructuring-in-block", 2, |o| format!("{{ ({}, zz) := ({}, 1) }}; return {};", o[0], o[1], o[0])));
+    v.push(stmt_c("lone-function-declaration-in-block", 2, |o| format!("{{ {} := () -> any {{ return {} }} }}; return {};", o[0], o[1], o[0])));
+    v.push(stmt_c("lone-declaration-in-match-arm", 2, |o| format!("match 1 {{ 1 => {{ {} := {} }}, => {{ }}, }}; return {};", o[0], o[1], o[0])));
+    v.push(stmt_c("lone-declaration-in-closure-block", 2, |o| format!("g := () -> any {{ {{ {} := {} }}; return {}; }}; return g();", o[0], o[1], o[0])));
     // binders that shadow an operand: outside the bound body the outer operand is meant
     for t in palette::position_types() {
         let ts = t.print();
@@ -454,6 +463,11 @@ pub fn install_monitor() {
                 });
                 return;
             };
+            if std::env::var_os("VERIF_DEBUG").is_some() {
+                if let NodeResult::Value(v) = &result {
+                    eprintln!("  node {kind}: static {} value {}", Ty::from_impl(&s).print(), canon_typed(v));
+                }
+            }
             if let NodeResult::Value(v) = result {
                 if kind == "UnaryOperation(Iter)" {
                     note_iter_node(&s, v);
@@ -610,6 +624,9 @@ impl Ctx {
                 self.st.c01.push(c01_sig("cell-content-not-in-declared-type", origin, &format!("argument#{i}"), "", ""), || json!({"case": case, "argument_after_call": canon_typed(a)}));
             }
         }
+        if std::env::var_os("VERIF_DEBUG").is_some() {
+            eprintln!("host call {origin}: {:?}; nodes judged so far {}", r.as_ref().map(|x| x.as_ref().map(canon_typed)), self.st.nodes_judged);
+        }
         match r {
             Ok(Ok(v)) => {
                 self.st.values += 1;
@@ -748,8 +765,49 @@ impl Ctx {
 
     /// One grid point: construct x type assignment; run-time path with every admitted value tuple,
     /// plus the literal (folded) twin of each tuple.
+    /// the first result type, from narrow to wide, with which the checker accepts the typed
+    /// program: "a function declared to return T never yields a non-T" is then judged against
+    /// a T that says something (with `any` it cannot fail)
+    fn tightest_result(&mut self, c: &Construct, tys: &[&Ty]) -> String {
+        let mut cands: Vec<String> = ["!", "bool", "int", "float", "string", "()", "[int]", "[float]", "(int, int)", "mut int", "() -> int", "struct{a: int}", "int|float", "(bool, int)", "[int|float]", "[any]"]
+            .iter()
+            .map(|s| s.to_string())
+            .collect();
+        for t in tys {
+            let mut p = t.print();
+            if t.is_union() {
+                p = format!("({p})");
+            }
+            if !cands.contains(&p) {
+                cands.push(p);
+            }
+        }
+        // rejected with `any` means rejected with every result type
+        {
+            let text = program_typed(c, tys, "any");
+            verif::set_fuel(Some(self.fuel), Some(core::DEPTH));
+            let ok = matches!(guard(|| Code::parse(&self.interp, &text)), Ok(Ok(_)));
+            verif::set_fuel(None, None);
+            if !ok {
+                return "any".into();
+            }
+        }
+        for cand in cands {
+            let text = program_typed(c, tys, &cand);
+            self.st.programs += 1;
+            verif::set_fuel(Some(self.fuel), Some(core::DEPTH));
+            let ok = matches!(guard(|| Code::parse(&self.interp, &text)), Ok(Ok(_)));
+            verif::set_fuel(None, None);
+            if ok {
+                return cand;
+            }
+        }
+        "any".into()
+    }
+
     pub fn grid_point(&mut self, c: &Construct, tys: &[&Ty]) {
-        let text = program_typed(c, tys, "any");
+        let ret = self.tightest_result(c, tys);
+        let text = program_typed(c, tys, &ret);
         let tnames: Vec<String> = tys.iter().map(|t| t.print().replace('|', "/")).collect();
         let origin = format!("construct={}|types={}", c.name, tnames.join(";"));
         let Some(f) = self.define(&text, &origin) else { return };
